@@ -540,7 +540,7 @@ func (c *Ctx) isCachedLen(v ssa.Value) bool {
 // c08LimitBefore: the guarded instructions are unreachable from the entry
 // once the "within the limit" edge of the exceed-comparison and the
 // "limit disabled" edge of the limit>0 test are removed.
-func c08LimitBefore(c *Ctx, fn *ssa.Function, ob, limitField string, guarded func(ssa.Instruction) bool, what string, sumOK func(ssa.Value) bool) {
+func c08LimitBefore(c *Ctx, fn *ssa.Function, ob, limitField string, guarded func(ssa.Instruction) bool, what string, sumOK func(ssa.Value) bool, extraSkip ...func(i *ssa.If, k int, exceed *ssa.If) bool) {
 	fi := c.P.Info(fn)
 	key := fnKey(c.P, fn, what+" behind "+limitField)
 	var exceed, positive *ssa.If
@@ -590,6 +590,11 @@ func c08LimitBefore(c *Ctx, fn *ssa.Function, ob, limitField string, guarded fun
 			_, t := ir.StripNot(i.Cond, k == 0)
 			posOnEdge := cmp.Holds(1) == t
 			return !posOnEdge
+		}
+		for _, f := range extraSkip {
+			if f(i, k, exceed) {
+				return true
+			}
 		}
 		return false
 	}
